@@ -129,7 +129,13 @@ func str(s string) zn.Expr  { return &zn.Str{V: s} }
 
 // raise - a statement list that raises (kind drawn)
 func (g *gen) raise(tag string) []zn.Stmt {
-	switch g.pick(11, "raise") {
+	switch g.pick(13, "raise") {
+	case 11:
+		g.labels["raise:arity-mismatch"] = true
+		return []zn.Stmt{show("ar", &zn.Call{Name: "Helper"})}
+	case 12:
+		g.labels["raise:arity-mismatch"] = true
+		return []zn.Stmt{&zn.Let{Names: []string{"Y" + tag}, E: &zn.Call{Name: "Helper", Args: []zn.Expr{num(1), num(2)}}}}
 	case 0, 1:
 		g.labels["raise:throw-builtin"] = true
 		return []zn.Stmt{&zn.Throw{Class: "异常", Args: []zn.Expr{str("m-" + tag)}}}
